@@ -86,7 +86,7 @@ def intervals(draw, n, ms, max_batch=16):
 @st.composite
 def value_cases(draw, tier):
     cost = draw(st.sampled_from(COSTS))
-    p = draw(st.integers(1, 4 if cost != "GaussianCovCost" else 3))
+    p = draw(st.integers(1, 4))
     ms = min_size_of(cost, p)
     nmax = 40 if tier == "quick" else 120
     n = D.weighted(draw, [(2, st.integers(ms, ms + 4)), (5, st.integers(ms, 24)), (3, st.integers(ms, nmax))])
